@@ -10,6 +10,7 @@ package codegen
 
 import (
 	"strconv"
+	"strings"
 
 	"github.com/HobbyOSs/gosk/pkg/cpu"
 	"github.com/HobbyOSs/gosk/pkg/ng_operand"
@@ -568,6 +569,10 @@ func specBytesEq8(a, b []byte) bool {
 // Data directives (C05)
 // ---------------------------------------------------------------------------
 
+func specTrim(s string) string { return strings.TrimSpace(s) }
+
+func specOpRET() ocode.OcodeKind { return ocode.OpRET }
+
 // specAtoi: the number a decimal operand string denotes (what pass 1 formatted).
 func specAtoi(s string) int {
 	v, _ := strconv.Atoi(s)
@@ -588,3 +593,89 @@ func specAtoi(s string) int {
 //@ props C05 C03
 //@ loop 0 invariant len(binary) == 4*iter && forall(0, iter, func(k int) bool { return binary[4*k] == byte(specAtoi(args[k])) && binary[4*k+1] == byte(specAtoi(args[k])>>8) && binary[4*k+2] == byte(specAtoi(args[k])>>16) && binary[4*k+3] == byte(specAtoi(args[k])>>24) })
 //@ ensures[bytes] len(result0) == 4*len(args) && forall(0, len(args), func(k int) bool { return result0[4*k] == byte(specAtoi(args[k])) && result0[4*k+1] == byte(specAtoi(args[k])>>8) && result0[4*k+2] == byte(specAtoi(args[k])>>16) && result0[4*k+3] == byte(specAtoi(args[k])>>24) })
+
+//@ func handleRESB
+//@ props C05 C03
+//@ requires ctx != nil
+//@ ensures[zeros] result0 != nil ==> len(args) == 1 && len(result0) == specParseDec64(args[0]) && forall(0, len(result0), func(k int) bool { return result0[k] == 0 })
+
+// specPow2Upto40: n is one of 1, 2, 4, ..., 2^40 (written out so that the solver
+// can split on the constant divisor).
+func specPow2Upto40(n int) bool {
+	return n == 1<<0 || n == 1<<1 || n == 1<<2 || n == 1<<3 || n == 1<<4 || n == 1<<5 || n == 1<<6 || n == 1<<7 || n == 1<<8 || n == 1<<9 || n == 1<<10 || n == 1<<11 || n == 1<<12 || n == 1<<13 || n == 1<<14 || n == 1<<15 || n == 1<<16 || n == 1<<17 || n == 1<<18 || n == 1<<19 || n == 1<<20 || n == 1<<21 || n == 1<<22 || n == 1<<23 || n == 1<<24 || n == 1<<25 || n == 1<<26 || n == 1<<27 || n == 1<<28 || n == 1<<29 || n == 1<<30 || n == 1<<31 || n == 1<<32 || n == 1<<33 || n == 1<<34 || n == 1<<35 || n == 1<<36 || n == 1<<37 || n == 1<<38 || n == 1<<39 || n == 1<<40
+}
+
+//@ func handleALIGNB
+//@ props C05 C03
+//@ requires ctx != nil && 0 <= params.MachineCodeLen && params.MachineCodeLen <= 0x7FFFFFFF && ctx.DollarPosition <= 0xFFFFFFFF
+//@ ensures[pow2] result1 == nil ==> len(params.Operands) == 1 && (specPow2Upto40(specAtoi(params.Operands[0])) || specAtoi(params.Operands[0]) > 1<<40)
+//@ ensures[pad] result1 == nil && specPow2Upto40(specAtoi(params.Operands[0])) ==> 0 <= len(result0) && len(result0) < specAtoi(params.Operands[0]) && (int(ctx.DollarPosition)+params.MachineCodeLen+len(result0))%specAtoi(params.Operands[0]) == 0 && forall(0, len(result0), func(k int) bool { return result0[k] == 0 })
+
+// ---------------------------------------------------------------------------
+// Register numbers and small leaf encoders (C01)
+// ---------------------------------------------------------------------------
+
+// specRegNum: SDM register number of a general (8/16/32-bit), segment or control
+// register name; -1 if s is none of them.
+func specRegNum(s string) int {
+	switch {
+	case specReg32(s) >= 0:
+		return specReg32(s)
+	case specReg16(s) >= 0:
+		return specReg16(s)
+	case specReg8(s) >= 0:
+		return specReg8(s)
+	case specSreg(s) >= 0:
+		return specSreg(s)
+	case specCreg(s) >= 0:
+		return specCreg(s)
+	}
+	return -1
+}
+
+//@ func GetRegisterNumber
+//@ props C01 C02
+//@ requires regName == "" || specIsRegName(regName)
+//@ ensures[num]    specRegNum(regName) >= 0 ==> result1 == nil && result0 == specRegNum(regName)
+//@ ensures[reject] specRegNum(regName) < 0 ==> result1 != nil
+
+//@ func registerToPushPopCode
+//@ props C01 C18
+//@ requires reg == "" || specIsRegName(reg)
+//@ ensures[num]    specReg16(reg) >= 0 || specReg32(reg) >= 0 ==> result1 && int(result0) == specRegNum(reg)
+//@ ensures[reject] specReg8(reg) >= 0 || specSreg(reg) >= 0 || specCreg(reg) >= 0 ==> !result1
+
+// specParseAny: the value of an operand string written as a Go/NASK integer literal.
+func specParseAny(s string) int64 {
+	v, _ := strconv.ParseInt(s, 0, 64)
+	return v
+}
+
+func specParseAnyOK(s string) bool {
+	_, err := strconv.ParseInt(s, 0, 64)
+	return err == nil
+}
+
+// specParseDec64: the value of a decimal operand string.
+func specParseDec64(s string) int {
+	v, _ := strconv.ParseInt(s, 10, 64)
+	return int(v)
+}
+
+//@ func getImmediateValue
+//@ props C01
+//@ requires 0 <= size && size <= 16
+//@ ensures[le1] result1 == nil && size == 1 ==> len(result0) == 1 && result0[0] == byte(specParseAny(specTrim(operandStr)))
+//@ ensures[le2] result1 == nil && size == 2 ==> len(result0) == 2 && result0[0] == byte(specParseAny(specTrim(operandStr))) && result0[1] == byte(specParseAny(specTrim(operandStr))>>8)
+//@ ensures[le4] result1 == nil && size == 4 ==> len(result0) == 4 && result0[0] == byte(specParseAny(specTrim(operandStr))) && result0[1] == byte(specParseAny(specTrim(operandStr))>>8) && result0[2] == byte(specParseAny(specTrim(operandStr))>>16) && result0[3] == byte(specParseAny(specTrim(operandStr))>>24)
+//@ ensures[size] result1 == nil ==> size == 1 || size == 2 || size == 4
+//@ ensures[err]  result1 == nil ==> specParseAnyOK(specTrim(operandStr))
+
+//@ func handleINT
+//@ props C01 C13
+//@ ensures[enc] len(result0) == 2 && result0[0] == 0xCD
+
+//@ func handleRET
+//@ props C01
+//@ option with-init
+//@ ensures[enc] result1 == nil && ocode.Kind == 0+specOpRET() ==> len(result0) == 1 && result0[0] == 0xC3
